@@ -2627,7 +2627,9 @@ class SlicedMemoryIO(object):
                 n_bytes, new_n_bytes), TruncationWarning, stacklevel=3)
             n_bytes = new_n_bytes
 
-        if n_bytes <= 0:
+        # Nothing can be read beyond the end of the region nor from a position
+        # before its start.
+        if n_bytes <= 0 or self._offset < 0:
             return b''
 
         # Perform the read and increment the offset
@@ -2660,13 +2662,15 @@ class SlicedMemoryIO(object):
             Number of bytes written.
         """
         if self.address + len(bytes) > self._end_address:
-            n_bytes = self._end_address - self.address
+            # NB: Never negative, a write started beyond the end writes nothing
+            n_bytes = max(0, self._end_address - self.address)
 
             warnings.warn("write truncated from {} to {} bytes".format(
                 len(bytes), n_bytes), TruncationWarning, stacklevel=3)
             bytes = bytes[:n_bytes]
 
-        if len(bytes) == 0:
+        # Nothing is written at a position before the start of the region
+        if len(bytes) == 0 or self._offset < 0:
             return 0
 
         # Perform the write and increment the offset
